@@ -39,3 +39,27 @@ Theorem C06_locate_in_grid32 : forall H (center width pos : binary_float 24 128)
   forall k, locate1 24 128 H (B2SF center) (B2SF width) (B2SF pos) = LocCoord k -> (0 <= k <= 2 ^ (H - 1) - 1)%Z.
 Proof. exact locate1_in_grid32. Qed.
 Print Assumptions C06_locate_in_grid32.
+
+(* containment up to ONE rounding: the coordinate returned is the cell containing the relative position the library computed,
+   up to the rounding of the quotient (relative 2^-53); exact when the quotient is representable (e.g. dyadic boxes) *)
+Theorem C06_locate_contains : forall H (center width pos : binary_float 53 1024), (1 <= H <= 60)%Z ->
+  is_finite center = true -> is_finite pos = true -> is_finite width = true ->
+  (bpow radix2 (-900) <= B2R width <= bpow radix2 900)%R ->
+  forall k, locate1 53 1024 H (B2SF center) (B2SF width) (B2SF pos) = LocCoord k ->
+  let rel := SF2R radix2 (SFsub 53 1024 (B2SF pos) (box_corner 53 1024 (B2SF center) (B2SF width))) in
+  let lw := (B2R width * bpow radix2 (-(H-1)))%R in
+  (rel = B2R width /\ k = 2 ^ (H - 1) - 1)%Z \/
+  (IZR k * (1 - bpow radix2 (-53)) <= rel / lw < (IZR k + 1) * (1 + bpow radix2 (-53)))%R.
+Proof. exact locate1_contains64. Qed.
+Print Assumptions C06_locate_contains.
+
+Theorem C06_locate_contains_exact : forall H (center width pos : binary_float 53 1024), (1 <= H <= 60)%Z ->
+  is_finite center = true -> is_finite pos = true -> is_finite width = true ->
+  (bpow radix2 (-900) <= B2R width <= bpow radix2 900)%R ->
+  forall k, locate1 53 1024 H (B2SF center) (B2SF width) (B2SF pos) = LocCoord k ->
+  let rel := SF2R radix2 (SFsub 53 1024 (B2SF pos) (box_corner 53 1024 (B2SF center) (B2SF width))) in
+  let lw := (B2R width * bpow radix2 (-(H-1)))%R in
+  generic_format radix2 (FLT_exp (-1074) 53) (rel / lw) ->
+  (rel = B2R width /\ k = 2 ^ (H - 1) - 1)%Z \/ (IZR k <= rel / lw < IZR k + 1)%R.
+Proof. exact locate1_contains_exact64. Qed.
+Print Assumptions C06_locate_contains_exact.
